@@ -161,8 +161,9 @@ def classic_2mul(a: fp.Real, b: fp.Real):
     - the rounding mode is round-nearest.
     """
 
+    # the precision is that of the caller's context, not of `INTEGER`
+    p = core.max_p()
     with fp.INTEGER:
-        p = core.max_p()
         s = fp.ceil(p / 2)
 
     ah, al = veltkamp_split(a, s)
